@@ -439,6 +439,22 @@ MUTANTS = [
                     result
                 }""", new="""                    result
                 }""", expect="V-arith::KotoVm::run_add::no_register_left_behind_once_the_call_has_run"),
+    dict(name="codegen2_break_value_into_any_register", kind="break", prop="C01", units=["V-codegen2"], file="crates/bytecode/src/compiler.rs",
+         old="                                ctx.with_fixed_register(loop_result_register),\n                            )?;\n                        }\n                        (Some(loop_result_register), None) => {", new="                                ctx.with_any_register(),\n                            )?;\n                        }\n                        (Some(loop_result_register), None) => {", expect="V-codegen2::Compiler::compile_node__break_arm::"),
+    dict(name="codegen2_plain_break_keeps_last_value", kind="break", prop="C01", units=["V-codegen2"], file="crates/bytecode/src/compiler.rs",
+         old="                        (Some(loop_result_register), None) => {\n                            self.push_op(SetNull, &[loop_result_register]);\n                        }", new="                        (Some(_loop_result_register), None) => {}", expect="V-codegen2::Compiler::compile_node__break_arm::value_into_the_loops_register_then_leave_the_loop"),
+    dict(name="codegen2_break_jump_not_registered_with_the_loop", kind="break", prop="C01", units=["V-codegen2"], file="crates/bytecode/src/compiler.rs",
+         old="                    self.push_op(Jump, &[]);\n                    self.push_loop_jump_placeholder()?;\n\n                    CompileNodeOutput::none()", new="                    self.push_op(Jump, &[]);\n                    self.push_offset_placeholder();\n\n                    CompileNodeOutput::none()", expect="V-codegen2::Compiler::compile_node__break_arm::value_into_the_loops_register_then_leave_the_loop"),
+    dict(name="codegen2_continue_keeps_last_value", kind="break", prop="C01", units=["V-codegen2"], file="crates/bytecode/src/compiler.rs",
+         old="                    if let Some(result_register) = loop_result_register {\n                        self.push_op(SetNull, &[result_register]);\n                    }\n                    self.push_jump_back_op(JumpBack, &[], loop_start_ip)?;", new="                    self.push_jump_back_op(JumpBack, &[], loop_start_ip)?;", expect="V-codegen2::Compiler::compile_node__continue_arm::null_then_back_to_the_start_of_the_loop"),
+    dict(name="codegen2_continue_jumps_past_the_loop_start", kind="break", prop="C01", units=["V-codegen2"], file="crates/bytecode/src/compiler.rs",
+         old="                    self.push_jump_back_op(JumpBack, &[], loop_start_ip)?;\n\n                    CompileNodeOutput::none()", new="                    self.push_jump_back_op(JumpBack, &[], loop_start_ip + 1)?;\n\n                    CompileNodeOutput::none()", expect="V-codegen2::Compiler::compile_node__continue_arm::null_then_back_to_the_start_of_the_loop"),
+    dict(name="codegen2_range_inclusive_flag_inverted", kind="break", prop="C01", units=["V-codegen2"], file="crates/bytecode/src/compiler.rs",
+         old="                    let op = if *inclusive { RangeInclusive } else { Range };", new="                    let op = if *inclusive { Range } else { RangeInclusive };", expect="V-codegen2::Compiler::compile_node__range_arm::start_then_end_then_the_range"),
+    dict(name="codegen2_range_end_before_start", kind="break", prop="C01", units=["V-codegen2"], file="crates/bytecode/src/compiler.rs",
+         old="                    let start_result = self.compile_node(*start, ctx.with_any_register())?;\n                    let end_result = self.compile_node(*end, ctx.with_any_register())?;", new="                    let end_result = self.compile_node(*end, ctx.with_any_register())?;\n                    let start_result = self.compile_node(*start, ctx.with_any_register())?;", expect="V-codegen2::Compiler::compile_node__range_arm::start_then_end_then_the_range"),
+    dict(name="codegen2_range_one_temporary_not_released", kind="break", prop="C01", units=["V-codegen2"], file="crates/bytecode/src/compiler.rs",
+         old="                    if start_result.is_temporary {\n                        self.pop_register()?;\n                    }\n                    if end_result.is_temporary {", new="                    if end_result.is_temporary {", expect="V-codegen2::Compiler::compile_node__range_arm::temporaries_released"),
     # ---- V-callseq
     dict(name="callseq_piped_value_last", kind="break", prop="C02", units=["V-callseq"], file="crates/bytecode/src/compiler.rs",
          old="""        let arg_offset = if let Some(piped_arg) = piped_arg {
